@@ -79,6 +79,7 @@ func runOne(t *testing.T, sc *Scenario, tape *rt.Tape, tier string, keepLog bool
 			s.Cfg.KeepLog = keepLog
 			main := sc.Setup(s, tier)
 			s.Run(main)
+			s.FinishPostCheck()
 			res.Outcome = s.Outcome
 			if v := s.GetViolation(); v != nil {
 				res.Class, res.Msg, res.VSeq, res.VAt = v.Class, v.Msg, v.Seq, v.At
